@@ -41,6 +41,15 @@ kani_unit("f64", "winter-math", F64, "kani/math_f64.rs", "field::f64", [
 
 PROPS["C07"] = dict(
     level="proof",
+    verus=True,
+    level_text="Every listed function of the three base fields carries a machine-checked contract: bit-level leaf "
+               "functions (reductions, add/sub/neg/double, equality, conversions, serialization) are proved for all "
+               "inputs by loop-free Kani harnesses on the real code; functions built from them (new, mul, square, "
+               "exp, inv, ...) are proved at the level of residues mod p by Verus on bodies extracted from /repo "
+               "on every run, against the leaf contracts.",
+    level_note="Trusted: Kani/CBMC/CaDiCaL, Verus/Z3, rustc; leaf contracts proved by Kani are assumed (external_body) "
+               "in the Verus units with the same clause text; primality of the moduli / Fermat for inv; type shims "
+               "for BaseElement in the Verus files. Functions not under contract are listed in DESIGN.md 4.C07.",
     explanation="",
     trusted=["primality of the three moduli; Fermat's little theorem (x^(M-1) = 1) for the step inv(x) = x^(M-2)",
              "mathematical lifting from the Montgomery witness identity to residues where no Verus lemma covers it"],
